@@ -1,6 +1,6 @@
 (* C05 correspondence (harness/c05.go): op 1 = one request of class [cls] by an account with bitmap [b]:
    obs [denied?; state changed although denied?]; op 2 = display name: obs [error?; resulting name] *)
-From Verif Require Import Base.Bytes Corr.Case Auth.Access Auth.GuardSpec.
+From Verif Require Import Base.Bytes Corr.Case Auth.Access Auth.GuardSpec Wire.Parse Wire.Types Wire.Impl.
 Local Open Scope N_scope.
 Definition a (n : nat) (l : list (list N)) : list N := nth n l [].
 
@@ -8,8 +8,38 @@ Definition model1 (o : dop) : list (list N) :=
   let '(code, args) := o in
   if code =? 1 then [[if permit (a 1 args) (dbe (a 0 args)) then 0 else 1]; [0]]
   else if code =? 2 then [[0]; adopted_name (a 0 args) (a 1 args) (a 2 args)]
+  else if code =? 3 then
+    (* op 3 = crafted path field against the upload-folder / drop-box rules: args kind, bitmap, raw field;
+       obs [0 = answered or silently dropped, 1 = refused, 3 = panic; protected effect without the privilege?] *)
+    match impl_dec_path (a 2 args) with
+    | Ok (d, items) =>
+        let ok := if dbe (a 0 args) =? 1 then may_list (a 1 args) d items else may_upload_to (a 1 args) d items in
+        [[if ok then 0 else 1]; [0]]
+    | Err => [[0]; [0]]
+    | Panic => [[3]; [0]]
+    end
   else [].
 Definition model (ops : list dop) : list (list (list N)) := map model1 ops.
-(* the model IS the reference decision table; the oracle is the same judgement *)
-Definition oracle (ops : list dop) (obs : list (list (list N))) : bool :=
-  list_eqb (list_eqb bytes_eqb) (model ops) obs.
+(* the model IS the reference decision table; the oracle is the same judgement - except for path probes, which are
+   judged on the observed EFFECT (no drop-box content revealed, no upload granted outside an upload folder /
+   drop box without the privilege) and, when the field is a well-formed path (count = items, nothing left over),
+   on the decision the specification assigns to the directory the items resolve to *)
+Definition oracle1 (o : dop) (ob : list (list N)) : bool :=
+  let '(code, args) := o in
+  if code =? 3 then
+    bytes_eqb (a 1 ob) [0] &&
+    match Wire.Types.spec_dec_path (a 2 args) with
+    | Some (items, []) =>
+        let b := a 1 args in
+        let ok := if dbe (a 0 args) =? 1 then negb (dir_is W_DROPBOX items) || IsSet b 30
+                  else IsSet b 25 || dir_is W_UPLOAD items || dir_is W_DROPBOX items in
+        match items with [] => true | _ => bytes_eqb (a 0 ob) [if ok then 0 else 1] end
+    | _ => true
+    end
+  else list_eqb bytes_eqb (model1 o) ob.
+Fixpoint oracle (ops : list dop) (obs : list (list (list N))) : bool :=
+  match ops, obs with
+  | o :: r, ob :: rb => oracle1 o ob && oracle r rb
+  | [], [] => true
+  | _, _ => false
+  end.
